@@ -71,6 +71,9 @@ pub struct WPlan {
     /// ghost entries interleaved into every map delivery
     #[serde(default)]
     pub ghosts: Vec<u64>,
+    /// Sha variant with byte-string keys: every key gets a common prefix of 150+ bytes
+    #[serde(default)]
+    pub long_keys: bool,
 }
 
 // ------------------------------------------------------------------------------------------
@@ -136,14 +139,27 @@ macro_rules! key_int {
 key_int!(u64);
 key_int!(u32);
 key_int!(usize);
+/// ids carrying this flag are mapped to long keys: 150 constant leading elements, then the identity
+pub const LONG_KEY: u64 = 1 << 44;
+
 impl Key for Vec<u8> {
     fn from_id(id: u64) -> Self {
+        if id & LONG_KEY != 0 {
+            let mut v = vec![0xABu8; 150];
+            v.extend_from_slice(&(id & !LONG_KEY).to_le_bytes());
+            return v;
+        }
         // variable length: ids below 256 are one byte long
         let b = id.to_le_bytes();
         let n = (8 - (id.leading_zeros() / 8) as usize).max(1);
         b[..n].to_vec()
     }
     fn to_id(&self) -> u64 {
+        if self.len() > 8 {
+            let mut b = [0u8; 8];
+            b.copy_from_slice(&self[150..158]);
+            return u64::from_le_bytes(b) | LONG_KEY;
+        }
         let mut b = [0u8; 8];
         b[..self.len()].copy_from_slice(self);
         u64::from_le_bytes(b)
@@ -151,9 +167,15 @@ impl Key for Vec<u8> {
 }
 impl Key for String {
     fn from_id(id: u64) -> Self {
+        if id & LONG_KEY != 0 {
+            return format!("{}item-{}", "prefix-".repeat(30), id & !LONG_KEY);
+        }
         format!("item-{}", id)
     }
     fn to_id(&self) -> u64 {
+        if let Some(rest) = self.strip_prefix(&"prefix-".repeat(30)) {
+            return rest[5..].parse::<u64>().unwrap() | LONG_KEY;
+        }
         self[5..].parse().unwrap()
     }
 }
@@ -196,16 +218,22 @@ pub trait WNode {
 }
 
 fn to_idx<D: Key>(pairs: &[(u64, f64)]) -> IndexMap<D, f64, SeedBH> {
+    to_idx_f::<D>(pairs, 0)
+}
+fn to_idx_f<D: Key>(pairs: &[(u64, f64)], flag: u64) -> IndexMap<D, f64, SeedBH> {
     let mut mp = IndexMap::with_hasher(SeedBH(7));
     for (i, w) in pairs {
-        mp.insert(D::from_id(*i), *w);
+        mp.insert(D::from_id(*i | flag), *w);
     }
     mp
 }
 fn to_hm<D: Key>(pairs: &[(u64, f64)], hseed: u64) -> HashMap<D, f64, SeedBH> {
+    to_hm_f::<D>(pairs, hseed, 0)
+}
+fn to_hm_f<D: Key>(pairs: &[(u64, f64)], hseed: u64, flag: u64) -> HashMap<D, f64, SeedBH> {
     let mut mp = HashMap::with_hasher(SeedBH(hseed));
     for (i, w) in pairs {
-        mp.insert(D::from_id(*i), *w);
+        mp.insert(D::from_id(*i | flag), *w);
     }
     mp
 }
@@ -303,7 +331,7 @@ impl<D: Key + Copy, H: Hasher + Default> WNode for N3a<D, H> {
     }
 }
 
-struct NSha<D: Key + Sig>(ProbMinHash3aSha<D>);
+struct NSha<D: Key + Sig>(ProbMinHash3aSha<D>, u64);
 impl<D: Key + Sig> WNode for NSha<D> {
     fn item(&mut self, _id: u64, _w: f64) {
         unreachable!()
@@ -312,11 +340,11 @@ impl<D: Key + Sig> WNode for NSha<D> {
         unreachable!()
     }
     fn idxmap(&mut self, pairs: &[(u64, f64)]) {
-        self.0.hash_weigthed_idxmap(&to_idx::<D>(pairs));
+        self.0.hash_weigthed_idxmap(&to_idx_f::<D>(pairs, self.1));
     }
     fn hmap(&mut self, pairs: &[(u64, f64)], hseed: u64) -> Vec<u64> {
-        let mp = to_hm::<D>(pairs, hseed);
-        let order = mp.keys().map(|k| k.to_id()).collect();
+        let mp = to_hm_f::<D>(pairs, hseed, self.1);
+        let order = mp.keys().map(|k| k.to_id() & !LONG_KEY).collect();
         self.0.hash_weigthed_hashmap(&mp);
         order
     }
@@ -324,7 +352,7 @@ impl<D: Key + Sig> WNode for NSha<D> {
         unreachable!()
     }
     fn sig(&self) -> Vec<u64> {
-        self.0.get_signature().iter().map(|d| d.to_id()).collect()
+        self.0.get_signature().iter().map(|d| d.to_id() & !LONG_KEY).collect()
     }
     fn regs(&self) -> (Vec<f64>, f64) {
         self.0.verif_registers()
@@ -357,12 +385,12 @@ pub fn make_wnode_m(p: &WPlan, v: Variant) -> Box<dyn WNode> {
     if v == Variant::Sha {
         let m = p.m;
         return match p.shakey {
-            ShaKey::U64 => Box::new(NSha::<u64>(ProbMinHash3aSha::new(m, PLACEHOLDER))),
-            ShaKey::U32 => Box::new(NSha::<u32>(ProbMinHash3aSha::new(m, PLACEHOLDER as u32))),
-            ShaKey::VecU8 => Box::new(NSha::<Vec<u8>>(ProbMinHash3aSha::new(m, <Vec<u8> as Key>::from_id(PLACEHOLDER)))),
-            ShaKey::Str => Box::new(NSha::<String>(ProbMinHash3aSha::new(m, <String as Key>::from_id(PLACEHOLDER)))),
-            ShaKey::VecU16 => Box::new(NSha::<Vec<u16>>(ProbMinHash3aSha::new(m, <Vec<u16> as Key>::from_id(PLACEHOLDER)))),
-            ShaKey::VecU32 => Box::new(NSha::<Vec<u32>>(ProbMinHash3aSha::new(m, <Vec<u32> as Key>::from_id(PLACEHOLDER)))),
+            ShaKey::U64 => Box::new(NSha::<u64>(ProbMinHash3aSha::new(m, PLACEHOLDER), 0)),
+            ShaKey::U32 => Box::new(NSha::<u32>(ProbMinHash3aSha::new(m, PLACEHOLDER as u32), 0)),
+            ShaKey::VecU8 => Box::new(NSha::<Vec<u8>>(ProbMinHash3aSha::new(m, <Vec<u8> as Key>::from_id(PLACEHOLDER)), if p.long_keys { LONG_KEY } else { 0 })),
+            ShaKey::Str => Box::new(NSha::<String>(ProbMinHash3aSha::new(m, <String as Key>::from_id(PLACEHOLDER)), if p.long_keys { LONG_KEY } else { 0 })),
+            ShaKey::VecU16 => Box::new(NSha::<Vec<u16>>(ProbMinHash3aSha::new(m, <Vec<u16> as Key>::from_id(PLACEHOLDER)), 0)),
+            ShaKey::VecU32 => Box::new(NSha::<Vec<u32>>(ProbMinHash3aSha::new(m, <Vec<u32> as Key>::from_id(PLACEHOLDER)), 0)),
         };
     }
     match p.elem {
@@ -632,7 +660,8 @@ impl Scenario for WStream {
         } else {
             vec![]
         };
-        WPlan { variant, elem, shakey, hash, m, wset, events, scale_exp, split, tiny, ghosts }
+        let long_keys = variant == Variant::Sha && matches!(shakey, ShaKey::VecU8 | ShaKey::Str) && rng.chance(0.3);
+        WPlan { variant, elem, shakey, hash, m, wset, events, scale_exp, split, tiny, ghosts, long_keys }
     }
 
     fn execute(&self, plan: &WPlan, ctx: &mut Ctx) -> Result<(), Violation> {
